@@ -96,6 +96,10 @@ def run(ctx):
     shared(ctx)
 
 
+def b_calls_all(b):
+    return [t for bb, t in b.calls()]
+
+
 def pool_rule(ctx):
     f = ctx.f
     P_ = pools(f)
@@ -139,15 +143,21 @@ def pool_rule(ctx):
                         seen_calls.add(id(c_))
                         for arg in c_.get('args', []):
                             todo.append(arg)
-            for cid in closures:
+            # a named function handed to map(..) is as good as a closure: `.map(cleared)`
+            fnitems = set()
+            for c_ in list(o.calls) + [c for c in b_calls_all(b) if id(c) in seen_calls]:
+                if cname(c_).endswith('Iterator::map') and len(c_.get('args', [])) > 1 and 'const' in c_['args'][1] and c_['args'][1]['const'].get('fn'):
+                    fnitems.add(c_['args'][1]['const']['fn'])
+            for cid in sorted(closures) + sorted(fnitems):
                 cb = f.bodies.get(cid)
                 if cb is None:
                     continue
+                argl = 2 if cb.j.get('kind') == 'closure' else 1
                 cl = [(cbb, ct) for cbb, ct in cb.calls() if call_matches(ct, ['Vec::<T, A>::clear'])]
                 if cl and all(cb.dominates(cl[0][0], r) for r in cb.exits()):
                     co = origin(cb, cl[0][1]['args'][0])
                     ro = return_origin(cb)
-                    if co.params() == {2} and ro.params() == {2}:
+                    if co.params() == {argl} and ro.params() == {argl}:
                         ok, why = True, 'the mapping closure clears its argument on every path before returning it'
             # the chain ends in that map (nothing appended after it)
             last_map = any(cname(c_).endswith('Iterator::map') for c_ in o.calls) or any(a[0] == 'call' and a[1].endswith('Iterator::map') for a in o.atoms)
